@@ -388,7 +388,11 @@ def rule_binders(rep: Report, repo: Repo) -> None:
             if isinstance(i, ast.If) and any(isinstance(c, ast.Call) and dotted(c.func).split('.')[-1] == 'syntax_error' for b in i.body for c in ast.walk(b)):
                 for cmp_ in ast.walk(i.test):
                     if isinstance(cmp_, ast.Compare) and len(cmp_.ops) == 1 and isinstance(cmp_.ops[0], ast.In) and norm(cmp_.comparators[0]) == 'self.consts':
-                        left = norm(cmp_.left)
+                        from ..pyfacts import resolve_names as _rn
+                        left_e = _rn(fn, cmp_.left, allow_calls=True)          # a local that names a derived spelling reads as what it names
+                        if not isinstance(left_e, (ast.Name, ast.Attribute)):
+                            continue                  # a DERIVED spelling (a call, a concatenation) is not the name the expression rule folds
+                        left = norm(left_e)
                         if name_text is None or left == name_text:
                             return True
                         # an element of the handed list: `for x in <name_text>: if x in self.consts`
